@@ -810,6 +810,16 @@ class Interp:
         elif isinstance(t, ast.Subscript):
             obj = self.eval(t.value, env)
             key = self.eval_index(t.slice, env)
+            if isinstance(obj, SArr) and isinstance(key, SArr) and key.dtype == 'bool':
+                # A[mask] op= v  ==  A = where(mask, A op v, A)   (in place)
+                val = self.eval(s.value, env)
+                if isinstance(val, SArr):
+                    raise Unsupported("masked in-place update with an array operand")
+                snap = obj._snapshot()
+                msnap = key._snapshot()
+                lib = self.lib['builtins.__binop__']
+                obj.write_region(lambda idx: msnap(idx), lambda idx: lib(self, op, snap(idx), val))
+                return
             cur = self.getitem(obj, key)
             if isinstance(cur, SArr) and cur.base is not None:
                 cur = cur.copy()
@@ -1007,7 +1017,13 @@ class Interp:
             pass
         except _Break:
             raise Unsupported("break inside invariant loop")
-        self.vc.ensure(f"{name}/inv-pres", spec.inv(self, env, k + 1), kind='inv-pres')
+        parts = getattr(spec, 'inv_parts', None)
+        if parts is not None:
+            # the invariant is a conjunction: one (smaller) obligation per named conjunct
+            for pname, cond in parts(self, env, k + 1):
+                self.vc.ensure(f"{name}/inv-pres/{pname}", cond, kind='inv-pres')
+        else:
+            self.vc.ensure(f"{name}/inv-pres", spec.inv(self, env, k + 1), kind='inv-pres')
         raise PathEnd()
 
     def while_with_invariant(self, s, env, spec, ordinal):
